@@ -132,6 +132,66 @@ fn mutate_bytes(rng: &mut Rng, mut v: Vec<u8>) -> Vec<u8> {
     v
 }
 
+/// the same tree, serialized with longer-than-necessary atom size prefixes on some atoms (always
+/// decodable by a lenient reader; whether the paths accept it is theirs to decide, together)
+fn serialize_padded(x: &Sx, rng: &mut Rng, pad_head: bool, out: &mut Vec<u8>) {
+    fn atom(a: &[u8], widen: u32, out: &mut Vec<u8>) {
+        let n = a.len();
+        // minimal class: 0 = single byte / 0x80, 1 = 6-bit size, 2 = 13-bit, 3 = 20-bit, 4 = 27-bit
+        let min_class = if n == 0 || (n == 1 && a[0] <= 0x7f) {
+            0
+        } else if n < 0x40 {
+            1
+        } else if n < 0x2000 {
+            2
+        } else if n < 0x10_0000 {
+            3
+        } else {
+            4
+        };
+        let class = (min_class + widen).min(4);
+        match class {
+            0 => {
+                if n == 0 {
+                    out.push(0x80);
+                } else {
+                    out.push(a[0]);
+                }
+                return;
+            }
+            1 => out.push(0x80 | n as u8),
+            2 => out.extend_from_slice(&[0xc0 | (n >> 8) as u8, n as u8]),
+            3 => out.extend_from_slice(&[0xe0 | (n >> 16) as u8, (n >> 8) as u8, n as u8]),
+            _ => out.extend_from_slice(&[0xf0 | (n >> 24) as u8, (n >> 16) as u8, (n >> 8) as u8, n as u8]),
+        }
+        out.extend_from_slice(a);
+    }
+    // iterative pre-order walk
+    let mut stack: Vec<(&Sx, bool)> = vec![(x, pad_head)];
+    let mut first_atom = true;
+    while let Some((n, _)) = stack.pop() {
+        match n.as_pair() {
+            Some((l, r)) => {
+                out.push(0xff);
+                stack.push((r, false));
+                stack.push((l, false));
+            }
+            None => {
+                let a = n.as_atom().unwrap_or(&[]);
+                let widen = if first_atom && pad_head {
+                    1 + rng.below(2) as u32
+                } else if rng.chance(1, 12) {
+                    1 + rng.below(3) as u32
+                } else {
+                    0
+                };
+                first_atom = false;
+                atom(a, widen, out);
+            }
+        }
+    }
+}
+
 fn case_generated(ctx: &Ctx, rng: &mut Rng, rep: &mut Report, params: &vcore::bundlegen::GenParams, spend_limit_stratum: bool) {
     let b = if spend_limit_stratum {
         let n = *rng.pick(&[5999usize, 6000, 6001]);
@@ -140,7 +200,7 @@ fn case_generated(ctx: &Ctx, rng: &mut Rng, rep: &mut Report, params: &vcore::bu
     } else {
         gen_bundle(rng, params)
     };
-    let form = rng.below(11);
+    let form = rng.below(12);
     // a generator that READS its block references: it prepends one extra spend whose parent id is
     // sha256(ref0 ‖ ref1), computed at run time from the first two references, in that order
     let mut b = b;
@@ -191,13 +251,20 @@ fn case_generated(ctx: &Ctx, rng: &mut Rng, rep: &mut Report, params: &vcore::bu
             refs_for_reader = Some(refs);
             (program, "procedural-reads-block-refs")
         }
+        9 => (quoted_generator(&b), "padded-size-prefixes"),
         _ => (quoted_generator(&b), "byte-mutated"),
     };
     let b = b;
-    let known_output = form_name != "byte-mutated";
+    let known_output = !matches!(form_name, "byte-mutated" | "padded-size-prefixes");
     let program: Vec<u8> = match form_name {
         "quoted-backrefs" => serialize_backrefs(&program_sx),
         "byte-mutated" => mutate_bytes(rng, program_sx.serialize()),
+        "padded-size-prefixes" => {
+            let mut v = vec![];
+            let pad_head = rng.bool();
+            serialize_padded(&program_sx, rng, pad_head, &mut v);
+            v
+        }
         _ => program_sx.serialize(),
     };
     // SIMPLE_GENERATOR admits exactly the programs of the form (q . x)
